@@ -689,7 +689,38 @@ def _register_vector_gradient_rules() -> None:
         VectorUnarySum,
         VectorExpressionSum,
     )
-    from optyx.core.matrices import QuadraticForm
+    from optyx.core.matrices import (
+        FrobeniusNorm,
+        MatrixSum,
+        MatrixVariable,
+        QuadraticForm,
+    )
+
+    @register_gradient(MatrixSum)
+    def gradient_matrix_sum(expr: MatrixSum, wrt: Variable) -> Expression:
+        """Gradient for matrix sum: ∂(Σ X_ij)/∂v = number of entries holding v.
+
+        A symmetric matrix stores one variable in two entries, so the count can be 2.
+        For a MatrixExpression the gradient is the sum of the element gradients.
+        """
+        mat = expr.matrix
+        if isinstance(mat, MatrixVariable):
+            count = sum(1 for row in mat._variables for var in row if var.name == wrt.name)
+            return Constant(float(count))
+        result: Expression = Constant(0.0)
+        for elem in mat.flatten():
+            result = _simplify_add(result, gradient(elem, wrt))
+        return result
+
+    @register_gradient(FrobeniusNorm)
+    def gradient_frobenius_norm(expr: FrobeniusNorm, wrt: Variable) -> Expression:
+        """Gradient for Frobenius norm: ∂||X||_F/∂v = (entries holding v) * v / ||X||_F."""
+        count = sum(
+            1 for row in expr.matrix._variables for var in row if var.name == wrt.name
+        )
+        if count == 0:
+            return Constant(0.0)
+        return _simplify_div(_simplify_mul(Constant(float(count)), wrt), expr)
 
     @register_gradient(LinearCombination)
     def gradient_linear_combination(
